@@ -498,6 +498,61 @@ func groupLaw(t *rapid.T, ad *adapter) {
 			}
 		}
 	}
+	// results that ARE the identity, and operations applied to the identity: the result must be recognised by
+	// IsIdentity, be IsEqual to the identity (both ways) and serialise to the identity encoding (enc goes through
+	// the API's marshaller; the reference rendering of the identity is what the decoder accepts)
+	{
+		O := ad.mk(big.NewInt(0))
+		type idc struct {
+			name string
+			p    pt
+		}
+		var ids []idc
+		if ad.add != nil && ad.neg != nil {
+			ids = append(ids, idc{"P+(-P)", ad.add(P, ad.neg(P))}, idc{"(-P)+P", ad.add(ad.neg(P), P)})
+		}
+		if ad.neg != nil {
+			ids = append(ids, idc{"Neg(identity)", ad.neg(O)})
+		}
+		if ad.dbl != nil {
+			ids = append(ids, idc{"Dbl(identity)", ad.dbl(O)})
+		}
+		if ad.add != nil {
+			ids = append(ids, idc{"identity+identity", ad.add(O, ad.mk(big.NewInt(0)))})
+		}
+		if ad.mul != nil {
+			ids = append(ids, idc{"k·identity", ad.mul(k, O)}, idc{"0·P", ad.mul(big.NewInt(0), P)})
+			if ad.r.BitLen() <= 8*ad.sbytes {
+				ids = append(ids, idc{"r·P", ad.mul(ad.r, P)})
+			}
+		}
+		if ad.mulgen != nil {
+			ids = append(ids, idc{"0·G", ad.mulgen(big.NewInt(0))})
+			if ad.r.BitLen() <= 8*ad.sbytes {
+				ids = append(ids, idc{"r·G", ad.mulgen(ad.r)})
+			}
+		}
+		wantO := ad.want(big.NewInt(0))
+		for _, c := range ids {
+			bad := ""
+			switch {
+			case ad.enc(c.p) != wantO:
+				bad = "encoding " + ad.enc(c.p)
+			case ad.isIdentity != nil && !ad.isIdentity(c.p):
+				bad = "IsIdentity=false"
+			case ad.isEqual != nil && (!ad.isEqual(c.p, O) || !ad.isEqual(O, c.p)):
+				bad = "IsEqual(identity)=false"
+			case ad.add != nil && ad.enc(ad.add(c.p, Q)) != ad.want(b):
+				bad = "identity+Q != Q"
+			}
+			if bad != "" {
+				if !vlib.Report(t, fmt.Sprintf("C13/%s.identity-result/%s", ad.name, c.name), desc+": "+bad) {
+					return
+				}
+			}
+		}
+		vlib.Class(sub, "identity-results-checked")
+	}
 	nt := boundary(kcls) || rel != "Q=random" || pcls != "P=random"
 	if nt {
 		cl := "nontrivial"
